@@ -13,6 +13,7 @@ import numpy as np
 import pyerrors as pe
 
 from harness import gen
+from harness.frames import snap, frame_event
 from harness.pe_project import project_obs, project_any, project_exc
 
 RULE = ('cases = reweight (weight layout x observable subset kind x replica subset x normalisation x container), correlate (pairs), '
@@ -100,13 +101,17 @@ def reweight_cases(rng, n, ctx):
                 if bad == 'covobs':
                     olist[j] = olist[j] + pe.cov_Obs(0.3, 0.01, 'sysW')
             corr = pe.Corr(olist)
+            before = snap([w, olist])
             out = _call(lambda: corr.reweight(w, **kw))
             outs = [out] * len(olist) if isinstance(out, Exception) else [c if c is None else c[0] for c in out.content]
         elif container == 'method':
+            before = snap([w, olist])
             outs = [_call(lambda: olist[0].reweight(w))]
         else:
+            before = snap([w, olist])
             out = _call(lambda: pe.reweight(w, olist, **kw))
             outs = [out] * len(olist) if isinstance(out, Exception) else list(out)
+        cases.append(frame_event('rw-%04d-frame' % i, 'reweight leaves the weight and the observables as they were', before, [w, olist]))
         for j, o in enumerate(olist):
             # a list request is rejected as a whole when any member is unalignable: judged member-wise only when all are fine or j is the bad one
             if bad != 'none' and j != 0:
@@ -162,7 +167,9 @@ def correlate_cases(rng, n, ctx):
             w = _obs_on(rng, lay, reps, 'full', mean=5.0)
             a = pe.reweight(w, [a])[0]
             ra = True
+        before = snap([a, b])
         out = _call(lambda: pe.correlate(a, b))
+        cases.append(frame_event('co-%04d-frame' % i, 'correlate leaves its operands as they were', before, [a, b]))
         cases.append({'id': 'co-%04d-%s%s' % (i, bad, '-rw' if ra else ''), 'ev': 'correlate', 'a': project_obs(a), 'b': project_obs(b), 'res': _res(out)})
         ctx.nontrivial.add(('co', nrep, bad, ra))
     return cases
@@ -191,7 +198,9 @@ def merge_cases(rng, n, ctx):
             w = _obs_on(rng, lay, groups[0], 'full', mean=5.0)
             k = order.index(0)
             obs[k] = pe.reweight(w, [obs[k]])[0]
+        before = snap(obs)
         out = _call(lambda: pe.merge_obs(obs))
+        cases.append(frame_event('mg-%04d-frame' % i, 'merge_obs leaves the list and the observables it was given as they were', before, obs))
         cases.append({'id': 'mg-%04d-%s' % (i, bad), 'ev': 'merge', 'list': [project_obs(o) for o in obs], 'res': _res(out)})
         ctx.nontrivial.add(('mg', nrep, tuple(map(tuple, groups)), bad))
     return cases
